@@ -76,6 +76,12 @@ func keGenScript(tp *simcore.Tape, k int) *keScript {
 		s.desc += "other-alpn "
 	}
 	ncookies := 1 + tp.Intn(8, "ncookies")
+	if tp.Bool(1, 8, "long-message") {
+		// far more records than this project's server sends: the message ends where its
+		// end-of-message record is, not after some number of records
+		ncookies = 25 + tp.Intn(40, "manycookies")
+		s.desc += "long-message "
+	}
 	recs := []keRecord{{Type: 1, Critical: true, Body: u16(0), Note: "nextproto"}}
 	aead := uint16(keAEAD15)
 	haveAEAD := true
